@@ -19,6 +19,10 @@ Stages
                              Circuit.append / insert / batch_insert_into AFTER a memoised view (hash, ==, !=, str, approx_eq)
                              was taken, new operation sorting before / after / around the existing ones, three qubit kinds:
                              equal to (and same hash as) the directly built value, plus the full instance oracle.
+      g_key_histories      : MeasurementKey memoises str()/hash(): every base key x memoised view taken before the edit x
+                             derivation (path prefix / with_key_path / rescope / rename / replace), chains of two edits with a
+                             view taken in between: same fields, str, ==, hash as the key built directly, the original key
+                             undisturbed, measure()/KeyCondition carriers equal, plus the full instance oracle.
       e_class_coverage     : union of generated classes vs registered classes (counter + note).
 The instance oracle (function `check_instance`) is shared by all (b) stages; wrappers [x, x], {"k": x} and
 to_json_gzip/read_json_gzip are applied to every instance.
@@ -1372,6 +1376,116 @@ def history_cases():
 
 
 # ---------------------------------------------------------------------------------------------
+# (g2) measurement-key histories: MeasurementKey memoises str()/hash(); every derived key (re-scoped, re-pathed,
+# renamed) must be the same value as the key built directly from (name, path), whatever was memoised before the edit.
+
+KEY_BASES = [("m", ()), ("m", ("p",)), ("k2", ("p", "q")), ("", ())]
+KEY_TRIGGERS = ["none", "str", "hash", "eq_str", "eq_key", "repr", "names_of_op", "json"]
+KEY_EDITS = ["prefix_a", "prefix_ab", "prefix_none", "with_path_x", "with_path_empty", "path_prefix_proto", "rescoped", "rename",
+             "rename_absent", "replace_path", "replace_both"]
+
+
+def _key_trigger(name, k):
+    if name == "none":
+        return
+    if name == "str":
+        str(k)
+    elif name == "hash":
+        hash(k)
+    elif name == "eq_str":
+        assert k == ":".join((*k.path, k.name))
+    elif name == "eq_key":
+        assert k == cirq.MeasurementKey(name=k.name, path=k.path)
+    elif name == "repr":
+        repr(k)
+    elif name == "names_of_op":
+        cirq.measurement_key_names(cirq.measure(cirq.LineQubit(0), key=k))
+    elif name == "json":
+        cirq.to_json(k)
+    else:
+        raise core.HarnessError(name)
+
+
+def _key_edit(name, k):
+    """Returns (edited key, expected name, expected path)."""
+    if name == "prefix_a":
+        return k.with_key_path_prefix("a"), k.name, ("a",) + k.path
+    if name == "prefix_ab":
+        return k.with_key_path_prefix("a", "b"), k.name, ("a", "b") + k.path
+    if name == "prefix_none":
+        return k.with_key_path_prefix(), k.name, k.path
+    if name == "with_path_x":
+        return cirq.with_key_path(k, ("x",)), k.name, ("x",)
+    if name == "with_path_empty":
+        return cirq.with_key_path(k, ()), k.name, ()
+    if name == "path_prefix_proto":
+        return cirq.with_key_path_prefix(k, ("y", "z")), k.name, ("y", "z") + k.path
+    if name == "rescoped":
+        return cirq.with_rescoped_keys(k, ("r",)), k.name, ("r",) + k.path
+    if name == "rename":
+        return cirq.with_measurement_key_mapping(k, {k.name: "n2"}), "n2", k.path
+    if name == "rename_absent":
+        return cirq.with_measurement_key_mapping(k, {"zz": "n2"}), k.name, k.path
+    if name == "replace_path":
+        return k.replace(path=("w",)), k.name, ("w",)
+    if name == "replace_both":
+        return k.replace(name="n3", path=("w", "v")), "n3", ("w", "v")
+    raise core.HarnessError(name)
+
+
+def key_history_cases():
+    out = []
+    for bi in range(len(KEY_BASES)):
+        for t1 in range(len(KEY_TRIGGERS)):
+            for e1 in range(len(KEY_EDITS)):
+                out.append((bi, t1, e1, -1, -1))
+                for t2 in (0, 1, 2):
+                    for e2 in range(len(KEY_EDITS)):
+                        out.append((bi, t1, e1, t2, e2))
+    return out
+
+
+def run_key_history(case):
+    bi, t1, e1, t2, e2 = case
+    name, path = KEY_BASES[bi]
+    k0 = cirq.MeasurementKey(name=name, path=path)
+    desc = f"MeasurementKey(name={name!r}, path={path!r}); memoised before edit 1: {KEY_TRIGGERS[t1]}; edit 1: {KEY_EDITS[e1]}"
+    _key_trigger(KEY_TRIGGERS[t1], k0)
+    k, en, ep = _key_edit(KEY_EDITS[e1], k0)
+    if e2 >= 0:
+        desc += f"; memoised before edit 2: {KEY_TRIGGERS[t2]}; edit 2: {KEY_EDITS[e2]}"
+        _key_trigger(KEY_TRIGGERS[t2], k)
+        k, en, ep = _key_edit(KEY_EDITS[e2], k)
+    direct = cirq.MeasurementKey(name=en, path=ep)
+    if (k.name, tuple(k.path)) != (en, ep):
+        return bad(f"derived key has fields ({k.name!r}, {k.path!r}), expected ({en!r}, {ep!r})\n  {desc}", kind="key_history_fields")
+    want = ":".join((*ep, en))
+    if str(k) != want:
+        return bad(f"str(derived key) = {str(k)!r}, the key built directly prints {want!r}\n  {desc}", kind="key_history_str")
+    e1_, e2_, ne = k == direct, direct == k, k != direct
+    if not (e1_ and e2_) or ne or not (k == want):
+        return bad(f"derived key differs from the key built directly: k==direct {e1_}, direct==k {e2_}, k!=direct {ne}, "
+                   f"k=={want!r} {k == want}\n  {desc}", kind="key_history_eq")
+    if hash(k) != hash(direct) or hash(k) != hash(want):
+        return bad(f"equal keys with different hashes: hash(derived)={hash(k)}, hash(direct)={hash(direct)}, hash(str)={hash(want)}"
+                   f"\n  {desc}", kind="key_history_hash")
+    # the original key is not disturbed by deriving from it
+    if str(k0) != ":".join((*path, name)) or k0 != cirq.MeasurementKey(name=name, path=path):
+        return bad(f"the original key changed after deriving from it: {k0!r} prints {str(k0)!r}\n  {desc}", kind="key_history_alias")
+    # a measurement / a classical control carrying the derived key is the same value as one carrying the direct key
+    q = cirq.LineQubit(0)
+    for what, a, b in (("measure", cirq.measure(q, key=k), cirq.measure(q, key=direct)),
+                       ("KeyCondition", cirq.KeyCondition(k), cirq.KeyCondition(direct))):
+        if a != b or hash(a) != hash(b):
+            return bad(f"{what} carrying the derived key differs from (or hashes unlike) the one carrying the direct key\n  {desc}",
+                       kind="key_history_carrier")
+    msg, _text, cnt = check_instance(k, "derived key: " + desc)
+    if msg:
+        return bad(msg, kind="key_history_instance", what=msg.split("\n")[0][:60])
+    return good(nontrivial=KEY_TRIGGERS[t1] != "none" and (en, ep) != (name, path), **cnt)
+
+
+# ---------------------------------------------------------------------------------------------
 # (e) class coverage
 
 
@@ -1475,5 +1589,6 @@ def stages(tier: str, seed: int):
     sts.append(CaseStage("d_qid_order", qc, run_qid_order))
     sts.append(CaseStage("f_pickle_cross_process", [(b, h) for b in range(len(XP_BUNDLES)) for h in (0, 1)], run_pickle_cross_process, chunk=1))
     sts.append(CaseStage("g_value_histories", history_cases(), run_history))
+    sts.append(CaseStage("g_key_histories", key_history_cases(), run_key_history, chunk=200))
     sts.append(CustomStage("e_class_coverage", exec_class_coverage, replay_class_coverage))
     return sts
